@@ -120,3 +120,127 @@ func posOfAlloc(al *ssa.Alloc) token.Pos {
 	}
 	return token.NoPos
 }
+
+// checkSourceMix: a record that is rebuilt field by field from the same-named fields of ONE
+// source object (`Price{Send: f(vc.Send), Lock: f(vc.Lock), …}`) must take every such field from
+// that object. A field taken from a *different* object of the source's type (`c.Lock` — the table
+// currently in force instead of the voted one) silently replaces that part of the record. Decided
+// over the given functions; a record with fewer than three same-named fields from one object is
+// not considered a field-by-field copy.
+func checkSourceMix(c *core.Ctx, rule string, fns []*ssa.Function) int {
+	n := 0
+	type src struct {
+		key string
+		typ string
+	}
+	for _, fn := range fns {
+		if fn == nil || fn.Blocks == nil {
+			continue
+		}
+		ord := 0
+		for _, b := range fn.Blocks {
+			for _, ins := range b.Instrs {
+				al, ok := ins.(*ssa.Alloc)
+				if !ok {
+					continue
+				}
+				t := namedOf(al.Type().(*types.Pointer).Elem())
+				if t == nil {
+					continue
+				}
+				if _, isStruct := t.Underlying().(*types.Struct); !isStruct {
+					continue
+				}
+				perField := map[string][]src{}
+				for _, r := range *al.Referrers() {
+					fa, ok := r.(*ssa.FieldAddr)
+					if !ok {
+						continue
+					}
+					fname := fieldNameOf(fa)
+					for _, fr := range *fa.Referrers() {
+						s, ok := fr.(*ssa.Store)
+						if !ok || s.Addr != fa {
+							continue
+						}
+						var leaves []ssa.Value
+						for _, o := range append([]ssa.Value{s.Val}, core.Origins(s.Val)...) {
+							leaves = append(leaves, o)
+							if call, ok := core.Unwrap(o).(*ssa.Call); ok {
+								for _, a := range call.Call.Args {
+									leaves = append(leaves, a)
+									leaves = append(leaves, core.Origins(a)...)
+								}
+							}
+						}
+						for _, o := range leaves {
+							var base ssa.Value
+							var sname string
+							switch x := core.Unwrap(o).(type) {
+							case *ssa.UnOp:
+								if sfa, ok := x.X.(*ssa.FieldAddr); ok {
+									base, sname = sfa.X, fieldNameOf(sfa)
+								}
+							case *ssa.Field:
+								if st := structUnder(x.X.Type()); st != nil {
+									base, sname = x.X, st.Field(x.Field).Name()
+								}
+							}
+							if base == nil || sname != fname || core.Unwrap(base) == ssa.Value(al) {
+								continue
+							}
+							k := core.Path(base)
+							if k == "" {
+								k = fmt.Sprintf("%p", core.Unwrap(base))
+							}
+							bt := base.Type().String()
+							perField[fname] = append(perField[fname], src{key: k, typ: strings.TrimPrefix(bt, "*")})
+						}
+					}
+				}
+				count := map[src]int{}
+				for _, ss := range perField {
+					seen := map[src]bool{}
+					for _, s := range ss {
+						if !seen[s] {
+							seen[s] = true
+							count[s]++
+						}
+					}
+				}
+				var major src
+				best := 0
+				for s, k := range count {
+					if k > best || (k == best && s.key < major.key) {
+						major, best = s, k
+					}
+				}
+				if best < 3 {
+					continue
+				}
+				n++
+				ord++
+				var odd []string
+				for f, ss := range perField {
+					fromMajor := false
+					var other *src
+					for i := range ss {
+						if ss[i] == major {
+							fromMajor = true
+						} else if ss[i].typ == major.typ {
+							other = &ss[i]
+						}
+					}
+					if !fromMajor && other != nil {
+						odd = append(odd, fmt.Sprintf("%s (from %s)", f, other.key))
+					}
+				}
+				sort.Strings(odd)
+				key := fmt.Sprintf("%s/%s-from-one-source#%d", core.ShortFn(fn), t.Obj().Name(), ord)
+				c.Check(len(odd) == 0, rule, key, posOfAlloc(al), fmt.Sprintf("%d same-named fields, all taken from %s", best, major.key),
+					fmt.Sprintf("a %s is rebuilt from the same-named fields of %s (%d fields), except %s — taken from another object of the same type: that part of the record is replaced by the other object's value", t.Obj().Name(), major.key, best, strings.Join(odd, ", ")))
+			}
+		}
+	}
+	return n
+}
